@@ -528,6 +528,19 @@ class Interp:
                 return target
         if name in ('split_first', 'split_first_mut', 'split_at', 'split_at_mut', 'iter', 'iter_mut', 'first', 'first_mut', 'last', 'len', 'is_empty') and args:
             base = self.unwrap_md(self.deref_arg(p, args[0]))
+            if base[0] == 'col' and name in ('split_first', 'split_first_mut'):
+                # == (get_unchecked(0), get_unchecked(1..)) behind an Option
+                mut = name.endswith('mut')
+                el = ('elem', base[1], base[2], 0, mut)
+                p.ev('col_access', col=base[1], off=base[2], idx=0, mut=mut, checked=True, ln=ln, fn=fn.dp, block=b)
+                setd(('some', ('tuple', [el, ('col', base[1], base[2] + 1)])))
+                return target
+            if base[0] == 'col' and name in ('first', 'first_mut'):
+                mut = name.endswith('mut')
+                el = ('elem', base[1], base[2], 0, mut)
+                p.ev('col_access', col=base[1], off=base[2], idx=0, mut=mut, checked=True, ln=ln, fn=fn.dp, block=b)
+                setd(('optelem', el))
+                return target
             if base[0] == 'col':
                 p.ev('col_other', name=name, col=base[1], off=base[2], ln=ln, fn=fn.dp, block=b)
                 setd(('unk', 'col_' + name))
